@@ -135,6 +135,8 @@ func (language *Language) CompilerPasses() compiler.Passes {
 		&compiler.DisjunctionOfConstantsToEnum{},
 		&compiler.AnonymousEnumToExplicitType{},
 		&compiler.FlattenDisjunctions{},
+		// flattening can leave `T | null` behind
+		&compiler.DisjunctionWithNullToOptional{},
 		&compiler.DisjunctionInferMapping{},
 		&compiler.UndiscriminatedDisjunctionToAny{},
 		&compiler.DisjunctionToType{},
